@@ -1172,8 +1172,22 @@ def _ev_value(env, o):
     return None
 
 
-def _ev_stmt(env, s):
+def _address_taken(blocks):
+    """locals whose address is taken somewhere in the body: they can change through the reference, so the evaluator below never
+    trusts a value it has recorded for them"""
+    out = set()
+    for blk in blocks:
+        for s in blk['stmts']:
+            if s['k'] == 'assign' and s['rv']['k'] in ('ref', 'rawptr') and not any(e['k'] == 'deref' for e in s['rv']['place']['proj']):
+                out.add(s['rv']['place']['local'])
+    return out
+
+
+def _ev_stmt(env, s, banned=()):
     """abstract evaluation of one statement over {local: ('int', n) | ('agg', variant index, [field values]) | ('tup', [field values])}"""
+    if s['k'] == 'assign' and not s['dest']['proj'] and s['dest']['local'] in banned:
+        env.pop(s['dest']['local'], None)
+        return
     if s['k'] != 'assign' or s['dest']['proj']:
         if s['k'] in ('assign', 'setdiscr'):
             env.pop(s['dest']['local'], None)
@@ -1210,10 +1224,17 @@ def _ev_switch(env, t):
 def path_env(body, path):
     """abstract values of plain locals after running the blocks of `path` in order (calls forget their destination)"""
     env = {}
+    banned = getattr(body, '_addr_taken', None)
+    if banned is None:
+        banned = _address_taken(body.blocks)
+        try:
+            body._addr_taken = banned
+        except Exception:
+            pass
     for bb in path:
         blk = body.blocks[bb]
         for s_ in blk['stmts']:
-            _ev_stmt(env, s_)
+            _ev_stmt(env, s_, banned)
         t = blk['term']
         if t['k'] == 'call' and not t['dest']['proj']:
             env.pop(t['dest']['local'], None)
@@ -1227,8 +1248,8 @@ def thread_jumps(body, max_rounds=6):
     in between are copied for that edge. Nothing else changes; the number of calls / atomic sites stays the same."""
     import copy
     blocks = body['blocks']
-
-    ev_stmt = _ev_stmt
+    banned = _address_taken(blocks)
+    ev_stmt = lambda env, s: _ev_stmt(env, s, banned)
 
     changed_any = False
     for _ in range(max_rounds):
